@@ -551,7 +551,7 @@ def check_C01(tier):
 
 
 def check_C02(tier):
-    return engine_property('C02', tier, ['C02_error_span', 'C02_stop_exact', 'C02_lv_is_live'], ['dfa_ok', 'sim_ok', 'exact_ok'],
+    return engine_property('C02', tier, ['C02_error_span', 'C02_stop_exact', 'C02_lv_is_live', 'C02_emitted_stop_exact'], ['dfa_ok', 'sim_ok', 'exact_ok'],
                            [certs.TH_C02], ['tc', 'sm'], (0,),
                            {'err-end', 'spec-err-end'}, {'err-end'},
                            RULE_ENGINE % ('dfa_ok+sim_ok+exact_ok (liveness ranks)', 'Err items: start, end (rounded by find_boundary for str), resumption point'),
@@ -631,7 +631,7 @@ def c03_empty_match_stage(res, tier):
 
 
 def check_C03(tier):
-    return engine_property('C03', tier, ['C03_tiling', 'C03_none_absorbing', 'C03_fb_str_ok'], ['dfa_ok', 'sim_ok', 'exact_ok'],
+    return engine_property('C03', tier, ['C03_tiling', 'C03_none_absorbing', 'C03_fb_str_ok', 'C03_emitted_tiling'], ['dfa_ok', 'sim_ok', 'exact_ok'],
                            [certs.TH_C03], ['tc', 'sm', 'tcsafe'], (0,),
                            {'tiling', 'spec-tiling', 'panic'}, {'tiling'},
                            RULE_ENGINE % ('dfa_ok (no empty match)+sim_ok+exact_ok', 'span sequences: strictly increasing, contiguous modulo skips, final None with span len..len, None absorbing (3 further calls)'),
@@ -698,10 +698,10 @@ def chunked_stage(res, tier, sets, fss):
 
 def check_C07(tier):
     res = Result('C07', tier)
-    framework(res, ['C07_next_prefix_safe', 'C07_next_prefix_none', 'C07_determined_scan', 'C07_prompt_one_byte', 'C07_prompt_strict', 'C07_no_test_acts', 'C07_stream_prefix', 'C07_partial_runs_end', 'C07_chunked_is_oneshot'])
+    framework(res, ['C07_next_prefix_safe', 'C07_next_prefix_none', 'C07_determined_scan', 'C07_prompt_one_byte', 'C07_prompt_strict', 'C07_no_test_acts', 'C07_stream_prefix', 'C07_partial_runs_end', 'C07_chunked_is_oneshot', 'C07_emitted_chunked_is_oneshot', 'C07_waits_only_if_open'])
     fss = ['tc', 'sm']
     sets = ce.compiled_sets(tier, fss)
-    failing, drv = cert_stage(res, tier, ['dfa_ok', 'sim_ok', 'exact_ok', 'prompt_ok', 'prompt_strict_ok'], [certs.TH_C07C], 'C07', curated_caps(sets, 'tc'))
+    failing, drv = cert_stage(res, tier, ['dfa_ok', 'sim_ok', 'exact_ok', 'prompt_ok', 'prompt_strict_ok'], [certs.TH_C07C, certs.TH_C07E], 'C07', curated_caps(sets, 'tc'))
     for c, name in failing[:6]:
         res.violation(None, 'certificate %s fails for %s' % (name, c.id),
                       dict(definition=c.source, definition_id=c.id, no_longer_checks='certificate %s (promptness / exactness of partial lexing) for %s' % (name, c.id)),
@@ -1412,7 +1412,7 @@ def utf8_cert_stage(res, tier, prop, extra_files=()):
 
 def check_C04(tier):
     res = Result('C04', tier)
-    framework(res, ['C04_match_ends_on_boundary', 'C04_bnd_is_char_boundary', 'C04_spans_on_boundaries', 'C04_fb_str_boundary'])
+    framework(res, ['C04_match_ends_on_boundary', 'C04_bnd_is_char_boundary', 'C04_spans_on_boundaries', 'C04_fb_str_boundary', 'C04_emitted_spans_on_boundaries'])
     rej_file = os.path.join(VERIF, 'corpus', 'front', 'utf8_reject.rs')
     failing, drv, allcaps, ext = utf8_cert_stage(res, tier, 'C04', [rej_file])
     for c, names in failing[:6]:
@@ -1476,7 +1476,7 @@ def check_C04(tier):
 
 def check_C12(tier):
     res = Result('C12', tier)
-    framework(res, ['C12_next_fb_independent', 'C12_inside_char_error', 'C12_streams_agree', 'C04_match_ends_on_boundary'])
+    framework(res, ['C12_next_fb_independent', 'C12_inside_char_error', 'C12_streams_agree', 'C12_emitted_streams_agree', 'C04_match_ends_on_boundary'])
     rej_file = os.path.join(VERIF, 'corpus', 'front', 'utf8_reject.rs')
     failing, drv, allcaps, ext = utf8_cert_stage(res, tier, 'C12', [rej_file])
     for c, names in failing[:6]:
